@@ -472,6 +472,17 @@ impl WorkStealingExecutor {
             return Some(task);
         }
 
+        // 1b. Then our own steal queue: balance() parks tasks there, and other workers
+        // (if there are any at all) are not obliged to ever take them.
+        if let Some(task) = my_queue
+            .steal_queue
+            .lock()
+            .unwrap_or_else(|e| e.into_inner())
+            .pop_front()
+        {
+            return Some(task);
+        }
+
         // 2. Try global queue
         if let Ok(mut queue) = global_queue.try_lock() {
             if let Some(task) = queue.pop_front() {
